@@ -32,6 +32,7 @@ package compiler
 // Composition invariant (established by the DI root, evaluated not proved): injected collaborators are non-nil.
 //@ func (*StepCompileMeta).handleImports
 //@   property C14
+//@   reports_all
 //@   requires [wired] s.aliasRegisterer != nil
 //@   ensures [registers_aliases_only] tlen() >= old(tlen()) && (forall k int :: old(tlen()) <= k && k < tlen() ==> evIs(k, "internal/pkg/compiler:aliasRegisterer.RegisterPrefixAlias"))
 //@   ensures [every_alias_registered] forall n string :: n in imports ==> (exists b int :: old(tlen()) <= b && b < tlen()
@@ -131,6 +132,7 @@ package compiler
 // every argument is resolved, in order; the whole list is accepted iff every argument is
 //@ func resolveArgs pure
 //@   property C02 C04 C12 C06 C07
+//@   reports_all
 //@   requires [wired] resolver != nil
 //@   ensures [same_length] len(r) == len(args)
 //@   ensures [in_order] forall k int :: 0 <= k && k < len(args) ==> r[k] == argExprToArg(resolver.ResolveArg(args[k]).0)
@@ -156,6 +158,7 @@ package compiler
 // C02: calls keep their method, immutability flag and order; their arguments are resolved in order
 //@ func (StepCompileServices).serviceCalls pure
 //@   property C02 C12 C06 C07
+//@   reports_all
 //@   requires [wired] s.argResolver != nil
 //@   ensures [same_length] len(r) == len(calls)
 //@   ensures [in_order] forall k int :: 0 <= k && k < len(calls) ==>
@@ -172,6 +175,7 @@ package compiler
 // C02 / C08: one field per declared key, in strictly increasing key order, each with the resolved value of that key
 //@ func (StepCompileServices).serviceFields pure
 //@   property C02 C08 C12 C06 C07
+//@   reports_all
 //@   requires [wired] s.argResolver != nil
 //@   ensures [names_are_keys] forall k int :: 0 <= k && k < len(r) ==> (r[k].Name in fields) && r[k].Value == argExprToArg(s.argResolver.ResolveArg(fields[r[k].Name]).0)
 //@   ensures [every_key_present] forall n string :: n in fields ==> (exists k int :: 0 <= k && k < len(r) && r[k].Name == n)
@@ -239,6 +243,7 @@ package compiler
 // its own declaration, with the scope of its declaration.
 //@ func (StepCompileServices).Process
 //@   property C02 C08 C05 C15 C12 C06 C07
+//@   reports_all
 //@   requires o != nil
 //@   requires [wired] s.aliaser != nil && s.argResolver != nil
 //@   requires [declared_scopes_are_keywords] forall n string :: n in i.Services && i.Services[n].Scope != nil ==>
@@ -268,6 +273,7 @@ package compiler
 // C04: decorators keep their declaration order (file order after merging)
 //@ func (StepCompileDecorators).Process
 //@   property C04 C12 C06 C07
+//@   reports_all
 //@   requires d != nil
 //@   requires [wired] s.aliaser != nil && s.argResolver != nil
 //@   modifies d.Decorators
@@ -286,6 +292,7 @@ package compiler
 // keeps its name even when its value cannot be compiled; its dependency list is the resolver's.
 //@ func (StepCompileParams).Process
 //@   property C03 C06 C07 C08 C12
+//@   reports_all
 //@   requires d != nil
 //@   requires [wired] s.resolver != nil
 //@   modifies d.Params
